@@ -1,12 +1,24 @@
 // C11: main::Module tree lifecycle hooks are nested, ordered and balanced (engine H, in-process).
 //
 // PROGRAMS  every ordered tree with <= nmax nodes (node ids = pre-order index = registration order),
-//           x required/optional flag per child x named("m<i>")/unnamed("") per node x {ok, init-fails,
-//           start-fails} per node x config {filled by fillDefaultConfig, missing}. Programs that the real
-//           Module::add() rejects (two unnamed siblings = "duplicate name") are counted and skipped.
+//           x required/optional flag per child x named("m<i>")/unnamed("") per node x a hook-result mode per node:
+//             ok | initx (init hook fails on every call) | startx (start hook fails on every call)
+//             | initx1 / startx1 (the hook fails on its FIRST call only: a rolled-back attempt is followed by a successful retry)
+//             | nocfg (named nodes only: the node's own section is missing from the config, initialize() fails without a hook)
+//           x attach variant: 0 add(child,required) top-down (child added to an already attached parent)
+//                             1 addAs(child,name[,false]) with the one-argument-less overload for required children, probes constructed
+//                               under a temporary name, sub-trees built completely and attached bottom-up
+//                             2 add(child[,false]) (default argument for required children), bottom-up      (trees < nmax nodes only)
+//                             3 addAs as in 1, top-down                                                   (trees < nmax nodes only)
+//           Programs that the real add()/addAs() rejects (two unnamed siblings = "duplicate name") are counted and skipped.
+//           After every build two add() calls that must be refused are made (re-add of an attached child, a second module with
+//           the name of an existing sibling), and after every root call that leaves the root initialised (by the reference) an
+//           add() on the root that must be refused as well; a module whose add() was refused must never see a hook.
 // HISTORIES every sequence of root calls over {initialize,start,stop,cleanup} up to `depth`, explored
-//           breadth-first per program with canonical-state dedup (state = state_ of every node + the
-//           per-node oracle automaton, also of the reduced programs used by rule O5); every explored
+//           breadth-first per program with canonical-state dedup (state = state_ of every node + the per-node oracle
+//           automaton + the reference model's state + the call counters that decide future hook results + capped
+//           history counters: failed initialize() passes, failed start() passes, completed cleanup passes, so that a
+//           rolled-back failure or a finished life cycle is NOT merged with the initial state); every explored
 //           history is finished twice on a fresh tree: "cleanup(); delete root" and "delete root" only.
 //           Plus the conditional call order of run_in_frontend.cpp:158-169 / run_in_backend.cpp
 //           (initialize; if ok {start; if ok {stop}; cleanup}; destroy) for every program.
@@ -17,15 +29,22 @@
 //   O2 per module: start hook only while a successful init hook is outstanding; stop hook only while a
 //      successful start hook is outstanding; cleanup hook only when no start is outstanding (after stop)
 //      and an init is outstanding; no second init/start hook while the previous one is outstanding.
-//   O3 balance, judged only for histories that end with cleanup() then destruction (1.7): no module has an
-//      outstanding successful init hook or start hook.
+//   O3 balance: no module has an outstanding successful init hook or start hook once the tree is gone. Judged for every
+//      module when the history ends with cleanup() then destruction (1.7) and in the frontend script (also on its
+//      "initialize() failed -> no cleanup() call" path, which is what Main really does); judged for every module but the
+//      root when the tree is destroyed without cleanup() (~Module can dispatch the hooks of the children it owns, not its own).
 //   O4 no crash / sanitizer report on any history (incl. destroy without cleanup).
 //   O6 no cleanup hook of a module while an ancestor still has a successful start hook outstanding (stop phase of the
 //      tree completes before its cleanup phase begins: the exact reverse of "init all, start all").
+//   O7 reference model: a small recursive model of the statement (state per module, hook results by the program, required /
+//      optional, in-call roll-back in reverse order) predicts the complete hook log and the return value of every root call;
+//      the real log and return values must be equal to it (this is the rule that notices hooks that do NOT happen).
 //   O5 an OPTIONAL child whose subtree contains a failing module never changes the hooks of any module
-//      outside that subtree: the hook log projected on the outside modules equals the log of the same
-//      history on the program with that subtree removed (executed on the real code as well).
-// argv: bfs <nmax> <depth> <k> <K> [xcheck_nmax [xcheck_depth]]   |   replay <P-spec> <Q-spec>
+//      outside that subtree: the real hook log projected on the outside modules equals the reference log of the program
+//      with that subtree removed.
+//   O8 add() calls that must be refused are refused; a refused module never gets a hook.
+// argv: bfs <nmax> <depth> <k> <K> [xcheck_nmax [xcheck_depth [cap_fail [cap_cycle [maxdev_at_nmax]]]]]   |   replay <P-spec> <Q-spec>
+//       maxdev_at_nmax > 0: trees with exactly nmax nodes get at most that many modules with a mode other than ok
 #include "hist/hist.h"
 #include <tbox/base/json.hpp>
 #include <tbox/main/module.h>
@@ -52,34 +71,49 @@ struct FakeCtx : Context {
 };
 static FakeCtx g_ctx;
 
-enum { MAXN = 6, MAXSEQ = 8 };
+enum { MAXN = 6, MAXSEQ = 10, MAXLOG = 512 };
 enum { HI, HS, HT, HC };                       // hook kinds: init, start, stop, cleanup
-enum { OP_INIT, OP_START, OP_STOP, OP_CLEANUP };
+enum { OP_INIT, OP_START, OP_STOP, OP_CLEANUP, OP_FINAL_CLEANUP, OP_DESTROY };
 enum { FIN_CLEANUP_DESTROY, FIN_DESTROY };
-static const char *kOpName[] = {"initialize", "start", "stop", "cleanup"};
+enum { M_OK, M_INITX, M_STARTX, M_INITX1, M_STARTX1, M_NOCFG, NFAIL };
+enum { V_ADD_TOPDOWN, V_ADDAS_BOTTOMUP, V_ADDDEF_BOTTOMUP, V_ADDAS_TOPDOWN, NVAR };
+enum { A_READD = 1, A_DUP = 2, A_LATE = 4, A_EXTRAHOOK = 8 };
+enum { JUDGE_NONE, JUDGE_ALL, JUDGE_NONROOT };
+static const char *kOpName[] = {"initialize", "start", "stop", "cleanup", "final-cleanup", "destroy"};
 static const char kHookCh[] = "ISTC";
-static const char *kFailName[] = {"ok", "initx", "startx"};
+static const char *kHookName[] = {"init", "start", "stop", "cleanup"};
+static const char *kFailName[] = {"ok", "initx", "startx", "initx1", "startx1", "nocfg"};
+static const char *kVarName[] = {"add(child,required)/top-down", "addAs+default-arg/bottom-up", "add+default-arg/bottom-up", "addAs+default-arg/top-down"};
+
+// the program's definition of a hook result: mode x hook kind x number of earlier calls of that hook on that module
+static inline bool hookOk(int mode, int kind, int earlier_calls) {
+  if (kind == HI) return !(mode == M_INITX || (mode == M_INITX1 && earlier_calls == 0));
+  if (kind == HS) return !(mode == M_STARTX || (mode == M_STARTX1 && earlier_calls == 0));
+  return true;
+}
 
 struct Ev { uint8_t pass, kind, node, ok; };
-static Ev g_log[512];
+static Ev g_log[MAXLOG];
 static int g_nlog;
 static uint8_t g_pass;
+static int g_anom;
+static long c_refused_adds;   // add() calls that had to be refused (O8)
 static inline void logev(int kind, int node, bool ok) {
-  if (g_nlog < 512) { g_log[g_nlog].pass = g_pass; g_log[g_nlog].kind = (uint8_t)kind; g_log[g_nlog].node = (uint8_t)node; g_log[g_nlog].ok = ok; }
+  if (g_nlog < MAXLOG) { g_log[g_nlog].pass = g_pass; g_log[g_nlog].kind = (uint8_t)kind; g_log[g_nlog].node = (uint8_t)node; g_log[g_nlog].ok = ok; }
   g_nlog++;
 }
 
 struct Probe : Module {
-  int id, fail;   // fail: 0 ok, 1 init hook fails, 2 start hook fails
-  Probe(int i, int f, const std::string &n) : Module(n, g_ctx), id(i), fail(f) {}
-  bool onInit(const Json &) override { logev(HI, id, fail != 1); return fail != 1; }
-  bool onStart() override { logev(HS, id, fail != 2); return fail != 2; }
-  void onStop() override { logev(HT, id, true); }
-  void onCleanup() override { logev(HC, id, true); }
+  int id, fail, ni, ns;   // id < 0: a module whose add() must have been refused
+  Probe(int i, int f, const std::string &n) : Module(n, g_ctx), id(i), fail(f), ni(0), ns(0) {}
+  bool onInit(const Json &) override { if (id < 0) { g_anom |= A_EXTRAHOOK; return true; } bool ok = hookOk(fail, HI, ni++); logev(HI, id, ok); return ok; }
+  bool onStart() override { if (id < 0) { g_anom |= A_EXTRAHOOK; return true; } bool ok = hookOk(fail, HS, ns++); logev(HS, id, ok); return ok; }
+  void onStop() override { if (id < 0) { g_anom |= A_EXTRAHOOK; return; } logev(HT, id, true); }
+  void onCleanup() override { if (id < 0) { g_anom |= A_EXTRAHOOK; return; } logev(HC, id, true); }
 };
 
 struct Prog {
-  int n; int par[MAXN]; bool req[MAXN]; bool named[MAXN]; int fail[MAXN]; bool cfg;
+  int n; int par[MAXN]; bool req[MAXN]; bool named[MAXN]; int fail[MAXN]; int var;
   bool inSub(int x, int top) const { while (x > top) x = par[x]; return x == top; }   // x in subtree(top)
 };
 
@@ -92,7 +126,7 @@ static std::string progStr(const Prog &p, int skip = -1) {
     for (int j = i + 1; j < p.n; j++) if (p.par[j] == i && !(skip >= 0 && p.inSub(j, skip))) { if (!c.empty()) c += ' '; c += rec(j); }
     if (!c.empty()) s += "(" + c + ")";
     return s; };
-  return rec(0) + (p.cfg ? " cfg=filled" : " cfg=missing");
+  return rec(0) + " attach=" + kVarName[p.var];
 }
 static std::string progSpec(const Prog &p) {   // machine form for `replay`
   std::string s = std::to_string(p.n) + ":";
@@ -100,7 +134,7 @@ static std::string progSpec(const Prog &p) {   // machine form for `replay`
   for (int i = 0; i < p.n; i++) s += char('0' + (i ? p.req[i] : 0)); s += ":";
   for (int i = 0; i < p.n; i++) s += char('0' + p.named[i]); s += ":";
   for (int i = 0; i < p.n; i++) s += char('0' + p.fail[i]); s += ":";
-  s += char('0' + p.cfg);
+  s += char('0' + p.var);
   return s;
 }
 static bool parseSpec(const char *t, Prog &p) {
@@ -109,65 +143,193 @@ static bool parseSpec(const char *t, Prog &p) {
   auto rd = [&](int *dst) { for (int i = 0; i < n; i++) { if (*c < '0' || *c > '9') return false; dst[i] = *c++ - '0'; } if (*c == ':') c++; return true; };
   int a[MAXN], b[MAXN], d[MAXN], e[MAXN];
   if (!rd(a) || !rd(b) || !rd(d) || !rd(e)) return false;
-  for (int i = 0; i < n; i++) { p.par[i] = i ? a[i] : -1; p.req[i] = b[i]; p.named[i] = d[i]; p.fail[i] = e[i]; }
-  p.cfg = (*c != '0'); return true;
+  for (int i = 0; i < n; i++) { p.par[i] = i ? a[i] : -1; p.req[i] = b[i]; p.named[i] = d[i]; p.fail[i] = e[i]; if (e[i] >= NFAIL) return false; }
+  p.var = (*c >= '0' && *c < '0' + NVAR) ? *c - '0' : 0; return true;
 }
 
-// build the real tree; nodes of subtree(skip) are left out. Returns nullptr when add() rejects a child.
-static Probe *buildTree(const Prog &p, int skip, Probe **nodes) {
-  bool ok = true;
-  for (int i = 0; i < p.n; i++) {
-    nodes[i] = nullptr;
-    if (skip >= 0 && p.inSub(i, skip)) continue;
-    nodes[i] = new Probe(i, p.fail[i], p.named[i] ? "m" + std::to_string(i) : std::string());
-    if (i > 0) { if (!nodes[p.par[i]]->add(nodes[i], p.req[i])) { delete nodes[i]; nodes[i] = nullptr; ok = false; break; } }
+static const std::string kNames[MAXN] = {"m0", "m1", "m2", "m3", "m4", "m5"}, kTmpNames[MAXN] = {"tmp0", "tmp1", "tmp2", "tmp3", "tmp4", "tmp5"}, kNoName;
+static const std::string &finalName(const Prog &p, int i) { return p.named[i] ? kNames[i] : kNoName; }
+
+// the config the framework would hand to the root: one (nested) section per named module, written from the program
+// (not read back from the implementation); sections of nocfg nodes are removed (deepest first)
+static Json buildConfig(const Prog &p) {
+  Json cfg;
+  std::function<void(int, Json &)> fill = [&](int i, Json &js_parent) {
+    Json &js_this = p.named[i] ? js_parent[finalName(p, i)] : js_parent;
+    for (int j = i + 1; j < p.n; j++) if (p.par[j] == i) fill(j, js_this);
+  };
+  fill(0, cfg);
+  for (int k = p.n - 1; k >= 0; k--) if (p.fail[k] == M_NOCFG) {
+    int path[MAXN], m = 0; for (int a = p.par[k]; a >= 0; a = p.par[a]) path[m++] = a;
+    Json *j = &cfg; bool ok = true;
+    while (m > 0 && ok) { int a = path[--m]; if (p.named[a]) { if (j->is_object() && j->contains(finalName(p, a))) j = &(*j)[finalName(p, a)]; else ok = false; } }
+    if (ok && j->is_object()) j->erase(finalName(p, k));
   }
-  if (!ok) { delete nodes[0]; return nullptr; }
+  return cfg;
+}
+
+static bool attach(const Prog &p, Probe **nodes, int i) {
+  Probe *par = nodes[p.par[i]], *c = nodes[i];
+  switch (p.var) {
+    case V_ADD_TOPDOWN: return par->add(c, p.req[i]);
+    case V_ADDDEF_BOTTOMUP: return p.req[i] ? par->add(c) : par->add(c, false);
+    default: return p.req[i] ? par->addAs(c, finalName(p, i)) : par->addAs(c, finalName(p, i), false);
+  }
+}
+
+// build the real tree. Returns nullptr when add()/addAs() rejects a child of the program itself.
+static Probe *buildTree(const Prog &p, Probe **nodes) {
+  bool as = p.var == V_ADDAS_BOTTOMUP || p.var == V_ADDAS_TOPDOWN;
+  bool bottomup = p.var == V_ADDAS_BOTTOMUP || p.var == V_ADDDEF_BOTTOMUP;
+  bool attached[MAXN] = {false};
+  for (int i = 0; i < p.n; i++) nodes[i] = new Probe(i, p.fail[i], (as && i > 0) ? kTmpNames[i] : finalName(p, i));
+  bool ok = true;
+  if (!bottomup) { for (int i = 1; i < p.n && ok; i++) ok = attached[i] = attach(p, nodes, i); }
+  else { for (int par = p.n - 1; par >= 0 && ok; par--) for (int i = par + 1; i < p.n && ok; i++) if (p.par[i] == par) ok = attached[i] = attach(p, nodes, i); }
+  if (!ok) { for (int i = 0; i < p.n; i++) if (!attached[i]) delete nodes[i]; return nullptr; }
+  // O8: adds that must be refused
+  if (p.n >= 2) {
+    c_refused_adds += 2;
+    if (nodes[0]->add(nodes[p.n - 1], false)) g_anom |= A_READD;                       // already has a parent
+    Probe *x = new Probe(-1, M_OK, finalName(p, 1));                                    // node 1 is the root's first child
+    if (nodes[0]->add(x, false)) g_anom |= A_DUP; else delete x;
+  }
   return nodes[0];
 }
 
-struct Run {
-  Ev log[512]; int nlog; int nlog_snap;      // hooks; number of hooks before the final
-  int npass;                                 // passes incl. final ones
-  uint8_t state_snap[MAXN];                  // Module::state_ per node before the final (3 = absent)
-  uint8_t ret[MAXSEQ + 4];                   // return values of initialize/start (1/0), 2 for void calls
-};
-
-// seq entries: OP_*; script frontend = -1 len
-static void execute(const Prog &p, const Json &cfg, const uint8_t *seq, int len, int fin, int skip, bool frontend, Run &r) {
-  Probe *nodes[MAXN];
-  g_nlog = 0; g_pass = 0;
-  Probe *root = buildTree(p, skip, nodes);
-  bool explicit_cleanup = true;
+// one driver for the real tree and for the reference model: the same call sequence, the same pass numbering
+template <class T> static int drive(T &t, const uint8_t *seq, int len, bool frontend, uint8_t *ret) {
   if (!frontend) {
     for (int i = 0; i < len; i++) {
-      g_pass = (uint8_t)i;
+      t.setPass(i, seq[i]);
       switch (seq[i]) {
-        case OP_INIT: r.ret[i] = root->initialize(cfg); break;
-        case OP_START: r.ret[i] = root->start(); break;
-        case OP_STOP: root->stop(); r.ret[i] = 2; break;
-        case OP_CLEANUP: root->cleanup(); r.ret[i] = 2; break;
+        case OP_INIT: ret[i] = t.initialize(); break;
+        case OP_START: ret[i] = t.start(); break;
+        case OP_STOP: t.stop(); ret[i] = 2; break;
+        case OP_CLEANUP: t.cleanup(); ret[i] = 2; break;
+      }
+      t.afterOp(i);
+    }
+    return len;
+  }
+  // run_in_frontend.cpp:158-169 (ctx calls left out): the stop() comes from the signal callback (line 72)
+  int k = 1;
+  t.setPass(0, OP_INIT); bool i_ok = t.initialize(); ret[0] = i_ok; t.afterOp(0);
+  if (i_ok) {
+    t.setPass(1, OP_START); bool s_ok = t.start(); ret[1] = s_ok; t.afterOp(1); k = 2;
+    if (s_ok) { t.setPass(2, OP_STOP); t.stop(); ret[2] = 2; t.afterOp(2); k = 3; }
+    t.setPass(k, OP_CLEANUP); t.cleanup(); ret[k] = 2; t.afterOp(k); k++;
+  }
+  return k;
+}
+
+// ------------------------------------------------------------------------------------------------
+// O7 reference model of the statement
+struct Model {
+  const Prog *p; int skip;
+  uint8_t st[MAXN]; int ni[MAXN], ns[MAXN];       // 0 none, 1 inited, 2 running; hook call counters
+  Ev log[MAXLOG]; int nlog, nlog_snap, npass, nops; uint8_t curpass;
+  uint8_t ret[MAXSEQ + 4], rootst[MAXSEQ + 4], st_snap[MAXN], passop[MAXSEQ + 6];
+  bool present(int i) const { return !(skip >= 0 && p->inSub(i, skip)); }
+  void emit(int kind, int x, bool ok) { if (nlog < MAXLOG) { log[nlog].pass = curpass; log[nlog].kind = (uint8_t)kind; log[nlog].node = (uint8_t)x; log[nlog].ok = ok; } nlog++; }
+  bool child(int j, int x) const { return p->par[j] == x && present(j); }
+  bool init_(int x) {
+    if (st[x] != 0) return false;
+    if (p->fail[x] == M_NOCFG) return false;
+    bool ok = hookOk(p->fail[x], HI, ni[x]++); emit(HI, x, ok); if (!ok) return false;
+    for (int c = x + 1; c < p->n; c++) if (child(c, x)) {
+      if (!init_(c) && p->req[c]) {
+        for (int d = c - 1; d > x; d--) if (child(d, x)) cleanup_(d, true);
+        emit(HC, x, true); return false;
       }
     }
-    g_pass = (uint8_t)len;
-  } else {
-    // run_in_frontend.cpp:158-169 (ctx calls left out): the stop() comes from the signal callback (line 72)
-    g_pass = 0; bool i_ok = root->initialize(cfg); r.ret[0] = i_ok; len = 1;
-    if (i_ok) {
-      g_pass = 1; bool s_ok = root->start(); r.ret[1] = s_ok; len = 2;
-      if (s_ok) { g_pass = 2; root->stop(); r.ret[2] = 2; len = 3; }
-      g_pass = (uint8_t)len; root->cleanup(); r.ret[len] = 2; len++;
-    }
-    g_pass = (uint8_t)len; fin = FIN_DESTROY;
+    st[x] = 1; return true;
   }
+  bool start_(int x) {
+    if (st[x] != 1) return false;
+    bool ok = hookOk(p->fail[x], HS, ns[x]++); emit(HS, x, ok); if (!ok) return false;
+    for (int c = x + 1; c < p->n; c++) if (child(c, x)) {
+      if (!start_(c) && p->req[c]) {
+        for (int d = c - 1; d > x; d--) if (child(d, x)) stop_(d, true);
+        emit(HT, x, true); return false;
+      }
+    }
+    st[x] = 2; return true;
+  }
+  void stop_(int x, bool own) {
+    if (st[x] != 2) return;
+    for (int c = p->n - 1; c > x; c--) if (child(c, x)) stop_(c, true);
+    if (own) emit(HT, x, true);
+    st[x] = 1;
+  }
+  void cleanup_(int x, bool own) {
+    if (st[x] == 0) return;
+    stop_(x, own);
+    for (int c = p->n - 1; c > x; c--) if (child(c, x)) cleanup_(c, true);
+    if (own) emit(HC, x, true);
+    st[x] = 0;
+  }
+  // C++: while ~Module runs, the hooks of the module being destroyed are no longer those of the user's class
+  void destroy_(int x) { cleanup_(x, false); for (int c = x + 1; c < p->n; c++) if (child(c, x)) destroy_(c); }
+  // driver interface
+  void setPass(int i, int op) { curpass = (uint8_t)i; passop[i] = (uint8_t)op; }
+  bool initialize() { return init_(0); }
+  bool start() { return start_(0); }
+  void stop() { stop_(0, true); }
+  void cleanup() { cleanup_(0, true); }
+  void afterOp(int i) { rootst[i] = st[0]; }
+  void run(const Prog &pp, int sk, const uint8_t *seq, int len, bool frontend, int fin) {
+    p = &pp; skip = sk; nlog = 0; memset(st, 0, sizeof st); memset(ni, 0, sizeof ni); memset(ns, 0, sizeof ns);
+    int k = drive(*this, seq, len, frontend, ret); nops = k;
+    nlog_snap = nlog; memcpy(st_snap, st, sizeof st);
+    for (int i = 0; i < pp.n; i++) if (!present(i)) st_snap[i] = 3;
+    if (!frontend && fin == FIN_CLEANUP_DESTROY) { setPass(k, OP_FINAL_CLEANUP); cleanup(); k++; }
+    setPass(k, OP_DESTROY); destroy_(0);
+    npass = k + 1; if (nlog > MAXLOG) nlog = MAXLOG;
+  }
+};
+
+struct Run {
+  Ev log[MAXLOG]; int nlog; int nlog_snap;   // hooks; number of hooks before the final
+  int npass, nops;                           // passes incl. final ones; root calls before the final
+  uint8_t state_snap[MAXN];                  // Module::state_ per node before the final
+  uint8_t ni_snap[MAXN], ns_snap[MAXN];      // probe call counters before the final (capped at 1)
+  uint8_t ret[MAXSEQ + 4];                   // return values of initialize/start (1/0), 2 for void calls
+  int anom;
+};
+
+static const std::string kLateName = "late";
+struct RealT {
+  Probe *root; const Json *cfg; const Model *m; Probe *late;
+  void setPass(int i, int) { g_pass = (uint8_t)i; }
+  bool initialize() { return root->initialize(*cfg); }
+  bool start() { return root->start(); }
+  void stop() { root->stop(); }
+  void cleanup() { root->cleanup(); }
+  void afterOp(int i) {
+    if (m->rootst[i] == 0) return;   // by the reference the root is initialised now: add() must be refused
+    if (!late) late = new Probe(-1, M_OK, kLateName);
+    c_refused_adds++;
+    if (root->add(late, false)) { g_anom |= A_LATE; late = nullptr; }   // wrongly accepted: the tree owns it now
+  }
+};
+
+static void execute(const Prog &p, const Json &cfg, const uint8_t *seq, int len, int fin, bool frontend, const Model &m, Run &r) {
+  Probe *nodes[MAXN];
+  g_nlog = 0; g_pass = 0; g_anom = 0;
+  Probe *root = buildTree(p, nodes);
+  RealT t{root, &cfg, &m, nullptr};
+  int k = drive(t, seq, len, frontend, r.ret); r.nops = k;
   r.nlog_snap = g_nlog;
-  for (int i = 0; i < p.n; i++) r.state_snap[i] = nodes[i] ? (uint8_t)nodes[i]->state_ : 3;
-  if (fin == FIN_CLEANUP_DESTROY) { root->cleanup(); g_pass++; }
+  for (int i = 0; i < p.n; i++) { r.state_snap[i] = (uint8_t)nodes[i]->state_; r.ni_snap[i] = nodes[i]->ni > 0; r.ns_snap[i] = nodes[i]->ns > 0; }
+  g_pass = (uint8_t)k;
+  if (!frontend && fin == FIN_CLEANUP_DESTROY) { root->cleanup(); k++; g_pass = (uint8_t)k; }
   delete root;
-  r.npass = g_pass + 1;
-  r.nlog = g_nlog < 512 ? g_nlog : 512;
+  delete t.late;
+  r.npass = k + 1;
+  r.nlog = g_nlog < MAXLOG ? g_nlog : MAXLOG;
   memcpy(r.log, g_log, sizeof(Ev) * (size_t)r.nlog);
-  (void)explicit_cleanup;
+  r.anom = g_anom;
 }
 
 static std::string logStr(const Ev *log, int n) {
@@ -190,7 +352,7 @@ static std::string cause(const Prog &p, const Ev *log, int nlog, int x, int kind
   // per node: 0 = hook ok in the pass, 1 = hook failed, 2 = no hook in the pass
   int st[MAXN];
   for (int i = 0; i < p.n; i++) st[i] = 2;
-  for (int i = 0; i < nlog; i++) if (log[i].pass == ps && log[i].kind == kind) st[log[i].node] = log[i].ok ? 0 : 1;
+  for (int i = 0; i < nlog; i++) if (log[i].pass == ps && log[i].kind == kind && log[i].node < p.n) st[log[i].node] = log[i].ok ? 0 : 1;
   auto present = [&](int i) { return !(skip >= 0 && p.inSub(i, skip)); };
   // fails(y): 0 no, 1 own hook failed, 2 no hook, 3 required descendant
   std::function<int(int)> fails = [&](int y) {
@@ -212,13 +374,12 @@ static std::string cause(const Prog &p, const Ev *log, int nlog, int x, int kind
 
 struct Auto { uint8_t oi[MAXN], os[MAXN]; int8_t ipass[MAXN], spass[MAXN]; uint8_t lateT[MAXN], lateC[MAXN]; int iseq[MAXN], sseq[MAXN]; };
 
-static void oracle(const Prog &p, const Run &r, bool judge_balance, int skip, std::vector<Finding> &out, Auto *snap) {
-  const Ev *log = r.log; int n = r.nlog;
+static void oracle(const Prog &p, const Ev *log, int n, int nlog_snap, int judge, int skip, std::vector<Finding> &out, Auto *snap) {
   auto add = [&](const std::string &sig, const std::string &d) { for (auto &f : out) if (f.sig == sig) return; out.push_back({sig, d}); };
   auto at = [&](int i) { char b[64]; snprintf(b, sizeof b, "hook#%d=%c%d pass%d", i, kHookCh[log[i].kind], log[i].node, log[i].pass); return std::string(b); };
   // O1 + O2 in one walk (the context of an O1 finding needs the automaton)
   Auto a; memset(&a, 0, sizeof a);
-  if (snap && r.nlog_snap == 0) *snap = a;
+  if (snap && nlog_snap == 0) *snap = a;
   int last[4] = {-1, -1, 1000, 1000}; int curpass = -1;
   uint8_t *lateT = a.lateT, *lateC = a.lateC; int *iseq = a.iseq, *sseq = a.sseq;
   for (int i = 0; i < n; i++) {
@@ -260,35 +421,58 @@ static void oracle(const Prog &p, const Run &r, bool judge_balance, int skip, st
       case HC:
         // O6 (nesting of the phases): the cleanup phase of a subtree begins only after the whole running phase has been
         // undone - a module is never cleaned up while an ancestor is still started (exact reverse of I* S* is T* C*)
-        // (judged like balance only for histories that end with an explicit cleanup(): hooks cannot be dispatched from ~Module of a running root)
-        if (judge_balance) for (int anc = p.par[x]; anc >= 0; anc = p.par[anc]) if (a.os[anc]) { add("cleanup-hook-while-an-ancestor-is-still-started", at(i)); break; }
+        // (judged only for histories that end with an explicit cleanup(): hooks cannot be dispatched from ~Module of a running root)
+        if (judge == JUDGE_ALL) for (int anc = p.par[x]; anc >= 0; anc = p.par[anc]) if (a.os[anc]) { add("cleanup-hook-while-an-ancestor-is-still-started", at(i)); break; }
         if (a.os[x]) add("cleanup-hook-before-stop-" + cause(p, log, n, x, HS, a.spass[x], skip), at(i));
         if (!a.oi[x]) add("cleanup-hook-without-successful-init", at(i));
         a.oi[x] = 0;
         break;
     }
-    if (snap && i + 1 == r.nlog_snap) *snap = a;
+    if (snap && i + 1 == nlog_snap) *snap = a;
   }
   // O3
-  if (judge_balance) {
-    for (int x = 0; x < p.n; x++) {
-      if (a.oi[x]) add("unbalanced-init-" + cause(p, log, n, x, HI, a.ipass[x], skip), "module " + std::to_string(x) + ": init hook succeeded in pass" + std::to_string(a.ipass[x]) + ", no cleanup hook");
-      if (a.os[x]) add("unbalanced-start-" + cause(p, log, n, x, HS, a.spass[x], skip), "module " + std::to_string(x) + ": start hook succeeded in pass" + std::to_string(a.spass[x]) + ", no stop hook");
+  if (judge != JUDGE_NONE) {
+    const char *sfx = judge == JUDGE_NONROOT ? "-of-child-after-destroy-without-cleanup" : "";
+    for (int x = judge == JUDGE_NONROOT ? 1 : 0; x < p.n; x++) {
+      if (a.oi[x]) add("unbalanced-init-" + cause(p, log, n, x, HI, a.ipass[x], skip) + sfx, "module " + std::to_string(x) + ": init hook succeeded in pass" + std::to_string(a.ipass[x]) + ", no cleanup hook");
+      if (a.os[x]) add("unbalanced-start-" + cause(p, log, n, x, HS, a.spass[x], skip) + sfx, "module " + std::to_string(x) + ": start hook succeeded in pass" + std::to_string(a.spass[x]) + ", no stop hook");
     }
   }
 }
 
-// O5: compare projected log with the log of the reduced program
-static void compareOutside(const Prog &p, int f, const Run &full, const Run &red, std::vector<Finding> &out) {
-  Ev proj[512]; int m = 0;
-  for (int i = 0; i < full.nlog; i++) if (!p.inSub(full.log[i].node, f)) proj[m++] = full.log[i];
-  bool same = (m == red.nlog);
-  for (int i = 0; same && i < m; i++) same = proj[i].pass == red.log[i].pass && proj[i].kind == red.log[i].kind && proj[i].node == red.log[i].node && proj[i].ok == red.log[i].ok;
+// O7: the real hook log and return values equal the reference
+static void compareReference(const Prog &p, const Run &r, const Model &m, std::vector<Finding> &out) {
+  auto add = [&](const std::string &sig, const std::string &d) { for (auto &f : out) if (f.sig == sig) return; out.push_back({sig, d}); };
+  auto role = [&](int x) { return x == 0 ? "root" : x >= p.n ? "unknown-module" : p.req[x] ? "required-module" : "optional-module"; };
+  auto desc = [&](const Ev *e) { return e ? std::string(kHookName[e->kind]) + "-hook" + (e->ok ? "" : "-failing") + "-of-" + role(e->node) : std::string("no-more-hooks"); };
+  int nops = r.nops < m.nops ? r.nops : m.nops;
+  for (int i = 0; i < nops; i++) if (r.ret[i] != m.ret[i]) {
+    add(std::string("return-value-differs-from-reference-") + kOpName[m.passop[i]] + "-expected-" + (m.ret[i] ? "true" : "false"),
+        "root call #" + std::to_string(i) + " returned " + std::to_string(r.ret[i]) + ", reference " + std::to_string(m.ret[i]));
+    break;
+  }
+  int i = 0; while (i < r.nlog && i < m.nlog && r.log[i].pass == m.log[i].pass && r.log[i].kind == m.log[i].kind && r.log[i].node == m.log[i].node && r.log[i].ok == m.log[i].ok) i++;
+  if (i == r.nlog && i == m.nlog) return;
+  const Ev *e = i < m.nlog ? &m.log[i] : nullptr, *g = i < r.nlog ? &r.log[i] : nullptr;
+  int pass;
+  if (e && g && e->pass != g->pass) { if (e->pass < g->pass) g = nullptr; else e = nullptr; }
+  pass = e ? e->pass : g->pass;
+  const char *op = pass < m.npass ? kOpName[m.passop[pass]] : "later-call";
+  add(std::string("hooks-differ-from-reference-in-") + op + "-expected-" + desc(e) + "-got-" + desc(g),
+      "at hook#" + std::to_string(i) + " pass" + std::to_string(pass) + "; reference log=[" + logStr(m.log, m.nlog) + "]");
+}
+
+// O5: compare the projected real log with the reference log of the reduced program
+static void compareOutside(const Prog &p, int f, const Ev *full, int nfull, const Ev *red, int nred, std::vector<Finding> &out) {
+  static Ev proj[MAXLOG]; int m = 0;
+  for (int i = 0; i < nfull; i++) if (full[i].node >= p.n || !p.inSub(full[i].node, f)) proj[m++] = full[i];
+  bool same = (m == nred);
+  for (int i = 0; same && i < m; i++) same = proj[i].pass == red[i].pass && proj[i].kind == red[i].kind && proj[i].node == red[i].node && proj[i].ok == red[i].ok;
   if (same) return;
   // classify: which outside module lost an init / start hook?
-  int cf[4][MAXN] = {{0}}, cr[4][MAXN] = {{0}};
-  for (int i = 0; i < m; i++) cf[proj[i].kind][proj[i].node]++;
-  for (int i = 0; i < red.nlog; i++) cr[red.log[i].kind][red.log[i].node]++;
+  int cf[4][MAXN + 1] = {{0}}, cr[4][MAXN + 1] = {{0}};
+  for (int i = 0; i < m; i++) if (proj[i].node < MAXN) cf[proj[i].kind][proj[i].node]++;
+  for (int i = 0; i < nred; i++) cr[red[i].kind][red[i].node]++;
   std::string sig = "optional-failure-changes-hooks-outside-its-subtree";
   for (int k : {HI, HS}) for (int x = 0; x < p.n; x++) if (cf[k][x] < cr[k][x]) {
     const char *rel = p.inSub(f, x) ? "ancestor" : (p.par[x] == p.par[f] ? "sibling" : "other-module");
@@ -297,7 +481,14 @@ static void compareOutside(const Prog &p, int f, const Run &full, const Run &red
   for (int x = 0; x < p.n; x++) if (cf[HT][x] > cr[HT][x]) { sig = "optional-failure-stops-running-module"; break; }
 done:
   for (auto &g : out) if (g.sig == sig) return;
-  out.push_back({sig, "optional subtree " + std::to_string(f) + " removed => log=[" + logStr(red.log, red.nlog) + "] but with it outside-projection=[" + logStr(proj, m) + "]"});
+  out.push_back({sig, "optional subtree " + std::to_string(f) + " removed => reference log=[" + logStr(red, nred) + "] but with it outside-projection=[" + logStr(proj, m) + "]"});
+}
+
+static void anomalies(int anom, std::vector<Finding> &out) {
+  if (anom & A_READD) out.push_back({"add-accepted-child-that-already-has-a-parent", "root->add(last node) returned true after the build"});
+  if (anom & A_DUP) out.push_back({"add-accepted-second-child-with-the-name-of-a-sibling", "root->add(new module named like node 1) returned true"});
+  if (anom & A_LATE) out.push_back({"add-accepted-on-initialised-module", "root->add(new module) returned true after a root call that left the root initialised"});
+  if (anom & A_EXTRAHOOK) out.push_back({"hook-dispatched-to-module-whose-add-was-refused", "a module that must not be part of the tree got a hook"});
 }
 
 // ------------------------------------------------------------------------------------------------
@@ -318,7 +509,7 @@ static void record(const Prog &p, const uint8_t *seq, int len, bool frontend, in
   g_viol_evals++;
   for (auto &f : fs) {
     g_sigcount[f.sig]++;
-    int odd = p.cfg ? 0 : 1; for (int i = 0; i < p.n; i++) odd += (p.fail[i] != 0) + p.named[i];
+    int odd = p.var; for (int i = 0; i < p.n; i++) odd += (p.fail[i] != 0) + p.named[i];
     long key = p.n * 1000000L + (frontend ? 5 : len) * 10000L + r.nlog * 100 + odd;
     auto &v = g_best[f.sig];
     if (v.size() >= 2 && key >= v.back().key) continue;
@@ -331,11 +522,13 @@ static void record(const Prog &p, const uint8_t *seq, int len, bool frontend, in
 }
 
 // counters
-static long c_programs, c_rejected, c_states, c_trans, c_exec, c_hooks, c_meta, c_balance_judged, c_frontend, c_frontend_nocleanup_unbalanced;
-static long c_pass_req_fail, c_pass_opt_fail, c_xcheck_seqs, c_xcheck_progs, c_eval_with_failure_hook;
+static long c_programs, c_rejected, c_states, c_trans, c_exec, c_hooks, c_meta, c_balance_judged, c_balance_judged_children, c_frontend, c_frontend_initfail;
+static long c_pass_req_fail, c_pass_opt_fail, c_xcheck_seqs, c_xcheck_progs, c_eval_with_failure_hook, c_retry_success, c_model_runs, c_destroy_only_same;
+static long c_prog_var[NVAR];
 static std::unordered_set<uint64_t> g_loghashes;
 static std::set<std::string> g_profiles;
 static int g_samples = 0;
+static int g_cap_fail = 2, g_cap_cycle = 1;
 
 static uint64_t hashLog(const Run &r) { uint64_t h = 1469598103934665603ULL; for (int i = 0; i < r.nlog; i++) { uint32_t v = r.log[i].pass | (r.log[i].kind << 8) | (r.log[i].node << 12) | (r.log[i].ok << 16); h = (h ^ v) * 1099511628211ULL; } return h; }
 
@@ -351,49 +544,90 @@ static void noteOutcome(const Prog &p, const Run &r, bool viol) {
 
 // statistics about failure paths really exercised (non-vacuity)
 static void notePaths(const Prog &p, const Run &r) {
-  for (int i = 0; i < r.nlog; i++) if (!r.log[i].ok && r.log[i].node > 0) { if (p.req[r.log[i].node]) c_pass_req_fail++; else c_pass_opt_fail++; }
+  bool failed[MAXN][2] = {{false}}; bool retry = false;
+  for (int i = 0; i < r.nlog; i++) {
+    int x = r.log[i].node, k = r.log[i].kind; if (x >= p.n || k > HS) continue;
+    if (!r.log[i].ok) { if (x > 0) { if (p.req[x]) c_pass_req_fail++; else c_pass_opt_fail++; } failed[x][k] = true; }
+    else if (failed[x][k]) retry = true;
+  }
+  if (retry) c_retry_success++;   // a hook that failed earlier in the history succeeded later (life after a roll-back)
 }
 
 static std::string g_cur_spec; static bool g_in_xcheck = false;
 
-// evaluate one history of one program: both finals + O5 reductions; returns canonical state
-static std::string evalHistory(const Prog &p, const Json &cfg, const std::vector<int> &optFail, const uint8_t *seq, int len, bool frontend, std::vector<std::string> *sigs_out = nullptr) {
-  static Run r, r2, rr;
-  std::vector<Finding> fs; Auto snap;
-  { char *c = hx::g_cur; int m = snprintf(c, 256, "crash while evaluating :: replay %s %s", g_cur_spec.c_str(), frontend ? "F" : ""); for (int i = 0; i < len && !frontend; i++) c[m++] = char('0' + seq[i]); c[m] = 0; }
-  execute(p, cfg, seq, len, FIN_CLEANUP_DESTROY, -1, frontend, r); c_exec++;
-  bool judged = true;
-  if (frontend) {
-    c_frontend++;
-    // 1.7: balance is judged only when the history ends with an explicit cleanup() before destruction
-    judged = r.ret[0] == 1;
-    if (!judged) { std::vector<Finding> tmp; oracle(p, r, true, -1, tmp, nullptr); for (auto &f : tmp) if (f.sig.compare(0, 10, "unbalanced") == 0) { c_frontend_nocleanup_unbalanced++; break; } }
+// findings of one finished execution
+static void judgeRun(const Prog &p, const std::vector<int> &optFail, const uint8_t *seq, int len, bool frontend, int fin, const Run &r, const Model &m, int judge,
+                     std::vector<Finding> &fs, Auto *snap, std::string *canon_red) {
+  static Model mr;
+  oracle(p, r.log, r.nlog, r.nlog_snap, judge, -1, fs, snap);
+  size_t before = fs.size();
+  compareReference(p, r, m, fs);
+  // "add() on an initialised root must be refused" is decided by the reference's root state: only meaningful while the real tree agrees with it
+  anomalies(fs.size() == before ? r.anom : (r.anom & (A_READD | A_DUP)), fs);
+  for (int f : optFail) {
+    mr.run(p, f, seq, len, frontend, fin); c_meta++; c_model_runs++;
+    compareOutside(p, f, r.log, r.nlog, mr.log, mr.nlog, fs);
+    if (canon_red) { *canon_red += '/'; for (int i = 0; i < p.n; i++) *canon_red += char('0' + mr.st_snap[i]); }
   }
-  if (judged) c_balance_judged++;
-  oracle(p, r, judged, -1, fs, &snap);
-  std::string canon;
+  if (!fs.empty()) {
+    // who is wrong? the reference itself must satisfy O1-O6 and be transparent for optional sub-trees
+    std::vector<Finding> self; oracle(p, m.log, m.nlog, m.nlog_snap, judge, -1, self, nullptr);
+    for (int f : optFail) { mr.run(p, f, seq, len, frontend, fin); compareOutside(p, f, m.log, m.nlog, mr.log, mr.nlog, self); }
+    if (!self.empty()) fs.push_back({"harness-reference-model-breaks-its-own-rules", self[0].sig + " " + self[0].detail + " reference log=[" + logStr(m.log, m.nlog) + "]"});
+  }
+}
+
+// evaluate one history of one program: both finals; returns canonical state
+static std::string evalHistory(const Prog &p, const Json &cfg, const std::vector<int> &optFail, const uint8_t *seq, int len, bool frontend, std::vector<std::string> *sigs_out = nullptr) {
+  static Run r, r2; static Model m, m2;
+  std::vector<Finding> fs; Auto snap;
+  { char *c = hx::g_cur; int k = snprintf(c, 256, "crash while evaluating :: replay %s %s", g_cur_spec.c_str(), frontend ? "F" : ""); for (int i = 0; i < len && !frontend; i++) c[k++] = char('0' + seq[i]); c[k] = 0; }
+  int fin = frontend ? FIN_DESTROY : FIN_CLEANUP_DESTROY;
+  m.run(p, -1, seq, len, frontend, fin); c_model_runs++;
+  execute(p, cfg, seq, len, fin, frontend, m, r); c_exec++;
+  if (frontend) { c_frontend++; if (m.ret[0] != 1) c_frontend_initfail++; }
+  c_balance_judged++;
+  std::string canon, canon_red;
+  judgeRun(p, optFail, seq, len, frontend, fin, r, m, JUDGE_ALL, fs, &snap, &canon_red);
   for (int i = 0; i < p.n; i++) {
     canon += char('a' + r.state_snap[i] * 4 + snap.oi[i] * 2 + snap.os[i]);
     // oracle memory that decides future O1 verdicts: lateness flags and the relative age of outstanding hooks
     int ri = 0, rs = 0;
     for (int y = 0; y < p.n; y++) { if (snap.oi[i] && snap.oi[y] && snap.iseq[y] < snap.iseq[i]) ri++; if (snap.os[i] && snap.os[y] && snap.sseq[y] < snap.sseq[i]) rs++; }
     canon += char('0' + ri); canon += char('0' + rs); canon += char('0' + (snap.oi[i] ? snap.lateC[i] : 0) * 2 + (snap.os[i] ? snap.lateT[i] : 0));
+    // reference state, and the call counters that decide future hook results
+    canon += char('0' + m.st_snap[i]);
+    canon += char('0' + (p.fail[i] == M_INITX1 ? r.ni_snap[i] : 0) * 2 + (p.fail[i] == M_STARTX1 ? r.ns_snap[i] : 0));
   }
-  // O5
-  for (int f : optFail) {
-    execute(p, cfg, seq, len, FIN_CLEANUP_DESTROY, f, frontend, rr); c_exec++; c_meta++;
-    compareOutside(p, f, r, rr, fs);
-    canon += '/'; for (int i = 0; i < p.n; i++) canon += char('0' + rr.state_snap[i]);
+  // history counters (capped): a rolled-back failure / a finished life cycle is a different state than "never tried"
+  if (!frontend) {
+    int fi = 0, fst = 0, cyc = 0;
+    for (int i = 0; i < len; i++) {
+      bool hooks = false, chook = false;
+      for (int j = 0; j < r.nlog_snap; j++) if (r.log[j].pass == i) { hooks = true; if (r.log[j].kind == HC) chook = true; }
+      if (seq[i] == OP_INIT && r.ret[i] == 0 && hooks) fi++;
+      if (seq[i] == OP_START && r.ret[i] == 0 && hooks) fst++;
+      if (seq[i] == OP_CLEANUP && chook) cyc++;
+    }
+    canon += '#'; canon += char('0' + std::min(fi, g_cap_fail)); canon += char('0' + std::min(fst, g_cap_fail)); canon += char('0' + std::min(cyc, g_cap_cycle));
   }
-  record(p, seq, len, frontend, FIN_CLEANUP_DESTROY, r, fs);
+  canon += char('0' + r.anom);   // a wrongly accepted add() changes the tree
+  canon += canon_red;
+  record(p, seq, len, frontend, fin, r, fs);
   noteOutcome(p, r, !fs.empty()); notePaths(p, r);
   if (sigs_out) for (auto &f : fs) sigs_out->push_back(f.sig);
   if (g_samples < 4 && !g_in_xcheck && p.n >= 3 && (frontend || len >= 3) && r.nlog >= 6 && (c_trans % 7) == 3) { g_samples++; printf("@SAMPLE prog=%s seq=%s final=%s => hooklog=[%s]%s\n", progStr(p).c_str(), seqStr(seq, len, frontend).c_str(), frontend ? "destroy" : "cleanup+destroy", logStr(r.log, r.nlog).c_str(), fs.empty() ? "" : (" VIOL:" + fs[0].sig).c_str()); }
-  if (!frontend) {
-    // destroy without cleanup(): crash-freedom and O1/O2 only
+  // destroy without cleanup(): crash-freedom, O1/O2, reference, and balance of the modules below the root.
+  // Skipped when by the reference every module is back in its initial state AND the first run agreed with the reference
+  // (its final cleanup() and ~Module dispatched nothing): "delete root" alone would then repeat exactly that run.
+  bool all_initial = fs.empty(); for (int i = 0; i < p.n; i++) if (m.st_snap[i] != 0) all_initial = false;
+  if (!frontend && all_initial) c_destroy_only_same++;
+  if (!frontend && !all_initial) {
     std::vector<Finding> fs2;
-    execute(p, cfg, seq, len, FIN_DESTROY, -1, false, r2); c_exec++;
-    oracle(p, r2, false, -1, fs2, nullptr);
+    m2.run(p, -1, seq, len, false, FIN_DESTROY); c_model_runs++;
+    execute(p, cfg, seq, len, FIN_DESTROY, false, m2, r2); c_exec++;
+    c_balance_judged_children++;
+    judgeRun(p, optFail, seq, len, false, FIN_DESTROY, r2, m2, JUDGE_NONROOT, fs2, nullptr, nullptr);
     record(p, seq, len, false, FIN_DESTROY, r2, fs2);
     noteOutcome(p, r2, !fs2.empty());
     if (sigs_out) for (auto &f : fs2) sigs_out->push_back(f.sig);
@@ -403,19 +637,18 @@ static std::string evalHistory(const Prog &p, const Json &cfg, const std::vector
 
 static double g_deadline; static bool g_capped = false;
 
-static long c_fixpoint, c_maxdepth_new;
+static long c_fixpoint, c_maxdepth_new, c_pruned;
 static void exploreProgram(const Prog &p, int depth, bool xcheck, int xdepth) {
-  // acceptance by the real add(), config by the real fillDefaultConfig()
-  Probe *nodes[MAXN]; Probe *root = buildTree(p, -1, nodes);
+  // acceptance by the real add()/addAs()
+  Probe *nodes[MAXN]; Probe *root = buildTree(p, nodes);
   if (!root) { c_rejected++; return; }
-  Json cfg;
-  if (p.cfg) root->fillDefaultConfig(cfg);
   delete root;
-  c_programs++; g_cur_spec = progSpec(p);
+  Json cfg = buildConfig(p);
+  c_programs++; c_prog_var[p.var]++; g_cur_spec = progSpec(p);
   // optional children whose subtree contains a module that fails (O5 reductions)
   std::vector<int> optFail;
   for (int f = 1; f < p.n; f++) if (!p.req[f]) {
-    bool any = false; for (int x = f; x < p.n; x++) if (p.inSub(x, f) && (p.fail[x] != 0 || (!p.cfg && p.named[x]))) any = true;
+    bool any = false; for (int x = f; x < p.n; x++) if (p.inSub(x, f) && p.fail[x] != M_OK) any = true;
     if (any) optFail.push_back(f);
   }
   std::set<std::string> seen; std::set<std::string> sigs_bfs;
@@ -468,15 +701,17 @@ static int replay(const char *ps, const char *qs) {
   uint8_t seq[MAXSEQ]; int len = 0; bool frontend = false; int fin = FIN_CLEANUP_DESTROY;
   const char *c = qs; if (*c == 'F') { frontend = true; c++; }
   while (*c >= '0' && *c <= '3' && len < MAXSEQ) seq[len++] = (uint8_t)(*c++ - '0');
-  if (!strcmp(c, "/d")) fin = FIN_DESTROY;
-  Probe *nodes[MAXN]; Probe *root = buildTree(p, -1, nodes);
+  if (!strcmp(c, "/d") || frontend) fin = FIN_DESTROY;
+  Probe *nodes[MAXN]; Probe *root = buildTree(p, nodes);
   if (!root) { printf("program rejected by Module::add()\n"); return 0; }
-  Json cfg; if (p.cfg) root->fillDefaultConfig(cfg); delete root;
-  static Run r; execute(p, cfg, seq, len, fin, -1, frontend, r);
-  std::vector<Finding> fs; oracle(p, r, fin == FIN_CLEANUP_DESTROY && (!frontend || r.ret[0] == 1), -1, fs, nullptr);
-  for (int f = 1; f < p.n; f++) if (!p.req[f]) { static Run rr; execute(p, cfg, seq, len, fin, f, frontend, rr); compareOutside(p, f, r, rr, fs); }
-  printf("prog=%s\nconfig=%s\nseq=%s final=%s\nhooklog=[%s]\nreturns:", progStr(p).c_str(), cfg.dump().c_str(), seqStr(seq, len, frontend).c_str(), fin == FIN_DESTROY || frontend ? "destroy" : "cleanup+destroy", logStr(r.log, r.nlog).c_str());
-  for (int i = 0; i < (frontend ? 4 : len); i++) printf(" %d", r.ret[i]); printf("\n");
+  delete root;
+  Json cfg = buildConfig(p);
+  std::vector<int> optFail;
+  for (int f = 1; f < p.n; f++) if (!p.req[f]) { bool any = false; for (int x = f; x < p.n; x++) if (p.inSub(x, f) && p.fail[x] != M_OK) any = true; if (any) optFail.push_back(f); }
+  static Run r; static Model m; m.run(p, -1, seq, len, frontend, fin); execute(p, cfg, seq, len, fin, frontend, m, r);
+  std::vector<Finding> fs; judgeRun(p, optFail, seq, len, frontend, fin, r, m, fin == FIN_CLEANUP_DESTROY || frontend ? JUDGE_ALL : JUDGE_NONROOT, fs, nullptr, nullptr);
+  printf("prog=%s\nconfig=%s\nseq=%s final=%s\nhooklog  =[%s]\nreference=[%s]\nreturns:", progStr(p).c_str(), cfg.dump().c_str(), seqStr(seq, len, frontend).c_str(), fin == FIN_DESTROY ? "destroy" : "cleanup+destroy", logStr(r.log, r.nlog).c_str(), logStr(m.log, m.nlog).c_str());
+  for (int i = 0; i < r.nops; i++) printf(" %d", r.ret[i]); printf("   reference returns:"); for (int i = 0; i < m.nops; i++) printf(" %d", m.ret[i]); printf("\n");
   for (auto &f : fs) printf("@VIOL sig=%s :: %s\n", f.sig.c_str(), f.detail.c_str());
   if (fs.empty()) printf("no violation\n");
   return 0;
@@ -487,39 +722,46 @@ int main(int argc, char **argv) {
   if (argc >= 4 && !strcmp(argv[1], "replay")) return replay(argv[2], argv[3]);
   int nmax = argc > 2 ? atoi(argv[2]) : 3, depth = argc > 3 ? atoi(argv[3]) : 4, k = argc > 4 ? atoi(argv[4]) : 0, K = argc > 5 ? atoi(argv[5]) : 1;
   int xn = argc > 6 ? atoi(argv[6]) : 0; int xdepth = argc > 7 ? atoi(argv[7]) : depth; if (xdepth > depth) xdepth = depth;
+  if (argc > 8) g_cap_fail = atoi(argv[8]); if (argc > 9) g_cap_cycle = atoi(argv[9]);
+  int maxdev = argc > 10 ? atoi(argv[10]) : 0;
   if (nmax >= MAXN) nmax = MAXN - 1; if (depth > MAXSEQ) depth = MAXSEQ;
   hx::install_crash_reporter("C11-crash");
   g_deadline = hx::deadline_from_env(1200);
   long base = 0;
   for (int n = 1; n <= nmax && !g_capped; n++) {
     std::vector<std::vector<int>> sh; shapes(n, sh);
-    long pow3 = 1; for (int i = 0; i < n; i++) pow3 *= 3;
+    int nvar = n == 1 ? 1 : (n < nmax ? NVAR : 2);
     for (size_t si = 0; si < sh.size() && !g_capped; si++)
       for (int rq = 0; rq < (1 << (n - 1)) && !g_capped; rq++)
-        for (long fl = 0; fl < pow3 && !g_capped; fl++, base++) {
-          if (base % K != k) continue;
-          if (hx::now_s() > g_deadline) { g_capped = true; printf("@CAP part %d/%d: deadline reached at n=%d shape=%zu/%zu req=%d fails=%ld (programs=%ld)\n", k, K, n, si, sh.size(), rq, fl, c_programs); break; }
+        for (int nm = 0; nm < (1 << n) && !g_capped; nm++) {
           Prog p; p.n = n;
-          long t = fl;
-          for (int i = 0; i < n; i++) { p.par[i] = sh[si][i]; p.req[i] = i ? ((rq >> (i - 1)) & 1) : true; p.fail[i] = (int)(t % 3); t /= 3; }
-          for (int nm = 0; nm < (1 << n); nm++) {
-            for (int i = 0; i < n; i++) p.named[i] = (nm >> i) & 1;
-            for (int cf = 1; cf >= 0; cf--) {
-              if (!cf && nm == 0) continue;   // config only matters for named modules
-              p.cfg = cf;
-              exploreProgram(p, depth, n <= xn, xdepth);
-            }
+          long combos = 1;
+          for (int i = 0; i < n; i++) { p.par[i] = sh[si][i]; p.req[i] = i ? ((rq >> (i - 1)) & 1) : true; p.named[i] = (nm >> i) & 1; combos *= p.named[i] ? NFAIL : NFAIL - 1; }
+          for (long fl = 0; fl < combos && !g_capped; fl++) {
+            if (maxdev > 0 && n == nmax) { long t = fl; int dev = 0; for (int i = 0; i < n; i++) { int r = p.named[i] ? NFAIL : NFAIL - 1; dev += (t % r) != M_OK; t /= r; } if (dev > maxdev) continue; }
+            { // the modes of the descendants of a module that can never initialise (initx / nocfg) cannot matter: only "ok" is kept for them
+              long t = fl; int md[MAXN]; bool dead = false;
+              for (int i = 0; i < n; i++) { int r = p.named[i] ? NFAIL : NFAIL - 1; md[i] = (int)(t % r); t /= r; }
+              for (int i = 1; i < n && !dead; i++) if (md[i] != M_OK) for (int a = p.par[i]; a >= 0; a = p.par[a]) if (md[a] == M_INITX || md[a] == M_NOCFG) { dead = true; break; }
+              if (dead) { if (k == 0) c_pruned++; continue; } }
+            if (base++ % K != k) continue;
+            if (hx::now_s() > g_deadline) { g_capped = true; printf("@CAP part %d/%d: deadline reached at n=%d shape=%zu/%zu req=%d names=%d modes=%ld (programs=%ld)\n", k, K, n, si, sh.size(), rq, nm, fl, c_programs); break; }
+            long t = fl;
+            for (int i = 0; i < n; i++) { int r = p.named[i] ? NFAIL : NFAIL - 1; p.fail[i] = (int)(t % r); t /= r; }
+            for (int v = 0; v < nvar; v++) { p.var = v; exploreProgram(p, depth, n <= xn, xdepth); }
           }
         }
   }
   for (auto &kv : g_best) for (auto &b : kv.second) printf("@VIOL sig=%s :: %s\n", kv.first.c_str(), b.text.c_str());
   for (auto &s : g_profiles) printf("@OUTCOME %s\n", s.c_str());
   for (auto &kv : g_sigcount) printf("@STAT evals_with:%s=%ld\n", kv.first.c_str(), kv.second);
-  printf("@STAT states=%ld transitions=%ld executions=%ld programs=%ld programs_rejected_by_add=%ld hooks_observed=%ld hooklogs_distinct_sum_over_partitions=%zu "
-         "optional_subtree_reductions=%ld balance_judged=%ld frontend_scripts=%ld frontend_initfail_nocleanup_unbalanced_info=%ld failing_hooks_of_required=%ld failing_hooks_of_optional=%ld "
-         "evaluations_with_failing_hook=%ld evaluations_with_violation=%ld xcheck_programs=%ld xcheck_plain_sequences=%ld programs_bfs_fixpoint=%ld\n",
-         c_states, c_trans, c_exec, c_programs, c_rejected, c_hooks, g_loghashes.size(), c_meta, c_balance_judged, c_frontend, c_frontend_nocleanup_unbalanced,
-         c_pass_req_fail, c_pass_opt_fail, c_eval_with_failure_hook, g_viol_evals, c_xcheck_progs, c_xcheck_seqs, c_fixpoint);
+  printf("@STAT states=%ld transitions=%ld executions=%ld programs=%ld programs_rejected_by_add=%ld programs_add_topdown=%ld programs_addAs_bottomup=%ld programs_add_defaultarg_bottomup=%ld programs_addAs_topdown=%ld "
+         "hooks_observed=%ld hooklogs_distinct_sum_over_partitions=%zu reference_model_runs=%ld optional_subtree_reductions=%ld balance_judged=%ld balance_judged_children_destroy_only=%ld frontend_scripts=%ld frontend_scripts_initialize_fails=%ld "
+         "failing_hooks_of_required=%ld failing_hooks_of_optional=%ld evaluations_with_failing_hook=%ld evaluations_with_successful_retry_after_failure=%ld adds_expected_refused=%ld "
+         "destroy_only_final_identical_to_cleanup_destroy_not_rerun=%ld evaluations_with_violation=%ld xcheck_programs=%ld xcheck_plain_sequences=%ld programs_bfs_fixpoint=%ld mode_assignments_pruned_below_never_initialising_module=%ld\n",
+         c_states, c_trans, c_exec, c_programs, c_rejected, c_prog_var[0], c_prog_var[1], c_prog_var[2], c_prog_var[3],
+         c_hooks, g_loghashes.size(), c_model_runs, c_meta, c_balance_judged, c_balance_judged_children, c_frontend, c_frontend_initfail,
+         c_pass_req_fail, c_pass_opt_fail, c_eval_with_failure_hook, c_retry_success, c_refused_adds, c_destroy_only_same, g_viol_evals, c_xcheck_progs, c_xcheck_seqs, c_fixpoint, c_pruned);
   if (k < 2) printf("@INFO part %d/%d: deepest history that reached a new canonical state has length %ld (depth bound %d); %ld of %ld programs reached the BFS fixpoint\n", k, K, c_maxdepth_new, depth, c_fixpoint, c_programs);
   fflush(stdout);
   return 0;
